@@ -6,8 +6,14 @@ received (in emission order).  No reference model: it cannot over-specify.
 STATUSES = ("started", "succeeded", "failed")
 
 
-def check_stream(stream, order=True, allow_unfinished=False):
-    """Returns list of (signature, detail)."""
+def check_stream(stream, order=True, allow_unfinished=False, order_exempt=None):
+    """Returns list of (signature, detail).
+
+    order_exempt(start_message) -> True for child actions whose position was
+    reserved ahead of time for another thread/process (serialize_task_id /
+    preserve_context hand-offs): their messages are emitted concurrently with
+    the parent's later positions, so they are left out of the emission-order
+    comparison (level order is still a causally consistent linear extension)."""
     viol = []
 
     def bad(sig, **d):
@@ -122,6 +128,10 @@ def check_stream(stream, order=True, allow_unfinished=False):
             if order:
                 last_first = -1
                 for c in sorted(comps):
+                    if order_exempt is not None and comps[c]["deeper"]:
+                        sub = prefixes.get(P + (c,), {}).get(1, {}).get("direct")
+                        if sub is not None and order_exempt(sub):
+                            continue
                     f = comps[c]["first"]
                     if f < last_first:
                         bad(
